@@ -4,14 +4,36 @@ from ._util import q as _q
 ID = "C05"
 PROP = {
     "level": "exploration",
-    "level_text": "draft",
-    "level_note": "draft",
-    "technique": "runtime monitoring: exact kept-interval oracle for open subjects",
-    "rule": "draft",
-    "assumptions": [],
-    "floor": _q(5000, 100000),
-    "must_count": _q(["kept_points_judged"], ["kept_points_judged"]),
+    "level_text": ("Exploration: every run executes Clipper64 (paths execution with and without the open subjects, and PolyTree "
+                   "execution) on 10^5 (quick) to several 10^6 (thorough) generated scenes of open polylines over general-position "
+                   "closed subject/clip paths, under all 4 clip types x 4 fill rules x PreserveCollinear x ReverseSolution, and judges "
+                   "every open solution against an exact kept-interval model that shares no code with the engine: crossing parameters "
+                   "ordered by exact rational comparison, membership of every sub-interval from exact winding numbers, kept length in "
+                   "long double. The property quantifies over all inputs, so this is sampling evidence, not proof."),
+    "level_note": ("trusted base: __int128 orientation/winding oracle (geom.h), the 256-bit rational comparison and the mixed open/closed "
+                   "general-position filter (c05_open.h), g++. Not observable: cut displacements inside the stated tolerances, inputs "
+                   "outside general position, coordinates beyond 2^46 (the fixed 1.5-unit bound of the property is exceeded by double "
+                   "rounding from about 2^52, see the report), order and direction of the open solution paths (not promised)"),
+    "technique": "runtime monitoring: exact kept-interval reference oracle for open subjects over generated executions (plain and HI_PRECISION builds)",
+    "rule": ("closed scenes from gp_scene (7 shape classes, sometimes plus an axis-parallel box) x 8 magnitude classes 2^5..2^46; 1-4 open "
+             "polylines of 7 kinds (random incl. self-crossing, chords, zigzags, short local paths, axis-parallel staircases, paths with "
+             "horizontal segments, chords crossing a closed edge at a shallow angle; 2-point paths; repeated vertices) accepted by the exact "
+             "filter 'union of all paths in general position' (3.001+M*2^-50 separation; in 25% of the cases the requirements that involve "
+             "only open edges are waived, tag oo_relaxed); cycled over 4 clip types x 4 fill rules x PreserveCollinear x ReverseSolution; "
+             "1 case in 29 is a robustness case with empty / 1-point / all-duplicate open paths (only 'Execute succeeds' is claimed). "
+             "A case is non-trivial iff at least one open segment properly crosses a closed edge that bounds the deciding region "
+             "(clip edges; for Union subject and clip edges); distinct by hash of inputs+configuration"),
+    "assumptions": ["exact __int128 orientation/winding oracle in harness/common/geom.h is correct",
+                    "inputs outside general position (filter: 3.001+M*2^-50 separation) and coordinates above 2^46 are not explored",
+                    "kept points closer than 3.25 units (along the path) to a cut and piece midpoints closer than tol+2 to a deciding edge are skipped and counted"],
+    "floor": _q(20000, 500000),
+    "must_count": _q(["kept_points_judged", "piece_midpoints_judged", "provenance_points_judged", "cases_with_cuts_length_judged",
+                      "cases_with_horizontal_open_segment", "two_point_open_paths", "robustness_cases"],
+                     ["kept_points_judged", "piece_midpoints_judged", "provenance_points_judged", "cases_with_cuts_length_judged",
+                      "cases_with_horizontal_open_segment", "two_point_open_paths", "robustness_cases", "closed_region_points_judged"]),
+    "timeout": _q(400, 7200),
     "jobs": [
-        {"mon": "mon_c05", "cfg": "plain", "cases": _q(40000, 1200000)},
+        {"mon": "mon_c05", "cfg": "plain", "cases": _q(120000, 3600000)},
+        {"mon": "mon_c05", "cfg": "hp", "cases": _q(40000, 1200000), "seed_off": 1000003},
     ],
 }
